@@ -233,8 +233,8 @@ theorem C14_fn_on_block_start_twice (l : PL BlockHash Txid Version LockTime TxOu
   | none => rw [hb] at h; cases h
   | some b => simp [Rs.assert]; rfl
 
-/-! ### Streamed delivery.  `ChainMonitor::on_push<F: FnOnce(&mut dyn Listener)>(&self, f)` takes a closure and is outside
-the translator's subset; `onPush` is its transcription (monitor.rs `on_push`: the decode state is created with
+/-! ### Streamed delivery.  `ChainMonitor::on_push<F: FnOnce(&mut dyn Listener)>(&self, f)` takes a closure; `onPush` is its readable
+transcription, proved equal to the generated body in `C14_fn_on_push` (monitor.rs `on_push`: the decode state is created with
 `BlockDecodeState::new` if there is none — `get_or_insert_with` —, the listener gets the provider, that decode state and
 the monitor's `saw_block`, `f` runs on it, and `state.saw_block = listener.saw_block`; the decode state stays in the
 monitor's slot).  Everything `f` does is the generated code. -/
@@ -255,6 +255,21 @@ def onPush (m : Mon Txid Set ChannelId BlockHash Version LockTime TxOut CPP)
     Rs.M (Mon Txid Set ChannelId BlockHash Version LockTime TxOut CPP) := do
   let l' ← f (pushStart m)
   pure (afterPush m l')
+
+omit [DecidableEq Txid] [DecidableEq BlockHash] in
+/-- **`ChainMonitor::on_push` is `onPush`**: the generated body (normalisations `b6_onpush_*` of
+    `translate/fn_targets/MonitorPush.b6.json`: the closure type as an opaque value with the method `apply`,
+    `get_or_insert_with` as `is_none` + assignment, the `&mut` borrow stored back), with `apply` instantiated by function
+    application, is the transcription above for every closure. -/
+theorem C14_fn_on_push (m : Mon Txid Set ChannelId BlockHash Version LockTime TxOut CPP)
+    (f : PL BlockHash Txid Version LockTime TxOut Set ChannelId CPP → Rs.M (PL BlockHash Txid Version LockTime TxOut Set ChannelId CPP)) :
+    ChainMonitor.on_push (fun g l => g l) m f = onPush m f := by
+  unfold ChainMonitor.on_push onPush pushStart afterPush
+  cases hd : m.decode_state with
+  | none =>
+    simp only [Option.isNone_none, if_true, Rs.unwrap, Rs.bind_ok, Rs.pure_eq, Option.getD_none]
+  | some ds =>
+    simp only [Option.isNone_some, Bool.false_eq_true, if_false, hd, Rs.unwrap, Rs.bind_ok, Rs.pure_eq, Option.getD_some]
 
 /-- the events of a whole streamed block -/
 def streamBlock (hdr : BlockHeader) (txs : List (Transaction Version LockTime Txid TxOut))
@@ -398,6 +413,20 @@ theorem C14_fn_add_funding (xext : Set → List (TxIn Txid) → Set)
   cases h1 : m.state.funding_txids.isEmpty <;>
     cases h2 : (m.state.funding_txids.length == m.state.funding_vouts.length) <;>
     simp [Rs.assert, h1, h2, ChainMonitorBase.add_funding_inputs, Except.map] <;> rfl
+
+omit [DecidableEq Txid] [DecidableEq BlockHash] in
+/-- `ChainMonitorBase::diagnostic` is `State::diagnostic` of the shared state; an unconfirmed channel reports the
+    hold time `MIN_DEPTH` = 100 -/
+theorem C14_fn_diagnostic (b : ChainMonitorBase Txid Set ChannelId) (c : Bool) :
+    b.diagnostic c = b.state.diagnostic c ∧
+    (b.state.funding_height = none → b.state.diagnostic c = .ok "UNCOMFIRMED hold till funding doublespent + 100") := by
+  constructor
+  · unfold ChainMonitorBase.diagnostic
+    cases b.state.diagnostic c <;> rfl
+  · intro h
+    unfold State.diagnostic
+    rw [h]
+    rfl
 end
 
 /-! ### non-vacuity: a synced monitor with a registered funding outpoint sees the funding transaction in a block, by both
